@@ -98,9 +98,11 @@ def gen_constraints(rng, oname, allow_lax=False, arg_elem=None):
             cons.append(("const", rng.choice(INT_BOUNDS)))
         elif r < 0.9:
             cons.append(("enum", tuple(rng.sample(INT_BOUNDS, rng.randint(1, 3)))))
-        else:
+        elif r < 0.95:
             cons += gen_bounds(rng, INT_BOUNDS, integer=True)
             cons.append(("multiple_of", rng.choice([2, 5])))
+        else:
+            cons.append(("multiple_of", rng.choice([2.5, 0.5, 1.5, 0.3])))   # a fractional step on an int rule
     elif oname == "float":
         if r < 0.45:
             cons += gen_bounds(rng, FLOAT_BOUNDS if rng.random() < 0.7 else INT_BOUNDS)
@@ -126,9 +128,13 @@ def gen_constraints(rng, oname, allow_lax=False, arg_elem=None):
             cons.append(("max_digits", rng.choice([1, 2, 3, 4, 6])))
         elif r < 0.85:
             cons.append(("multiple_of", rng.choice([2, 5])))
-        else:
+        elif r < 0.93:
             cons.append(("decimal_places", rng.choice([1, 2])))
             cons.append(("max_digits", rng.choice([3, 4, 5])))
+        else:
+            # decimal_places completes a Decimal to the declared places: whatever is checked before it sees another text
+            cons.append(rng.choice([("regex", r"\d\.\d"), ("regex", r"-?\d+(\.\d)?"), ("const", Decimal("1.5")), ("enum", (Decimal("1.5"), Decimal("2")))]))
+            cons.append(("decimal_places", rng.choice([2, 3])))
     elif oname in ("str", "bytes"):
         if r < 0.2:
             cons.append(("length", rng.choice([0, 1, 2, 3, 5])))
